@@ -575,13 +575,13 @@ theorem claim_ok (s : State) (w i n h : Nat) (k : Kind) (hok : (claimStep s w i 
   unfold claimStep at hok ⊢
   repeat' split at hok
   all_goals first | (simp at hok; done) | skip
-  rename_i hvb _ a hga _ orc hgo hon hlc hct
+  rename_i hvb _ a hga _ orc hgo hon hlc hct hpn
   refine ⟨a, orc, hga, hgo, ?_, ?_, ?_, ?_, ?_⟩
   · simpa [claimRequiresOnline] using hon
   · simpa [attestChecksContiguity] using hct
   · simpa using hvb
   · simpa using hlc
-  · simp [hvb, hon, hlc, hct]
+  · simp [hvb, hon, hlc, hct, hpn]
 
 theorem claim_not_ok (s : State) (w i n h : Nat) (k : Kind) (hne : (claimStep s w i n h k).2 ≠ .ok) :
     (claimStep s w i n h k).1 = s := by
